@@ -228,29 +228,47 @@ def evaluate(run, props):
 # tasks
 # ---------------------------------------------------------------------------------------------
 
-def gen_interrupt(rng, info):
-    """An operator interrupt at a main-thread blocking point inside auction or play."""
+INTERRUPT_KINDS = ('q.get', 'sleep', 'bar.wait', 'ev.wait', 'cv.wait', 'sem.acq', 'lk.acq',
+                   'rl.acq')
+
+
+def interrupt_points(info):
+    """Operator interrupts are injected at the main thread's blocking points that lie inside the
+    board loop (i.e. after the log file was opened): every blocking operation from the first
+    `put` of the first board's header on -- the queue reads of the auction and the play, the
+    per-trick sleeps, and the rendezvous waits of `deal`.  `pre` holds, per kind, how many such
+    operations the main thread performed before that first put (admission, seating)."""
     kinds = info['kinds'].get('server', {})
-    nget = kinds.get('q.get', 0)
-    nsleep = kinds.get('sleep', 0) - info.get('accepts', 4)
-    choices = []
-    if nget > 0:
-        choices += [('q.get', n) for n in range(nget)]
-    if nsleep > 0:
-        choices += [('sleep', info.get('accepts', 4) + n) for n in range(nsleep)]
+    pre = info.get('server_pre_open') or {}
+    out = []
+    for k in INTERRUPT_KINDS:
+        for n in range(pre.get(k, 0), kinds.get(k, 0)):
+            out.append({'role': 'server', 'kind': k, 'n': n})
+    return out
+
+
+def gen_interrupt(rng, info):
+    """An operator interrupt at a main-thread blocking point inside the board loop."""
+    choices = interrupt_points(info)
     if not choices:
         return None
-    k, n = rng.choice(choices)
-    return {'role': 'server', 'kind': k, 'n': n}
+    return dict(rng.choice(choices))
 
 
 def all_interrupts(info):
-    kinds = info['kinds'].get('server', {})
-    out = [{'role': 'server', 'kind': 'q.get', 'n': n} for n in range(kinds.get('q.get', 0))]
-    acc = info.get('accepts', 4)
-    out += [{'role': 'server', 'kind': 'sleep', 'n': acc + n}
-            for n in range(max(0, kinds.get('sleep', 0) - acc))]
-    return out
+    return interrupt_points(info)
+
+
+def server_pre_open(run):
+    """per kind: number of operations of the server's main thread before its first queue put"""
+    pre = {}
+    for dec, now, role, kind, obj, detail in run.sim.log:
+        if role != 'server':
+            continue
+        if kind == 'q.put':
+            break
+        pre[kind] = pre.get(kind, 0) + 1
+    return pre
 
 
 def run_one(scn, sched, props, st, findings, label):
@@ -266,6 +284,9 @@ def run_one(scn, sched, props, st, findings, label):
     if aborted:
         st['extra']['aborted_runs'] = st['extra'].get('aborted_runs', 0) + 1
         st['faults']['abort.' + what] = st['faults'].get('abort.' + what, 0) + 1
+        if sched.get('interrupt'):
+            ik = 'interrupt_at.' + str(sched['interrupt'].get('kind'))
+            st['faults'][ik] = st['faults'].get(ik, 0) + 1
         st['extra']['logs_with_%d_records' % (len(an.records) if an.records is not None else -1)] = \
             st['extra'].get('logs_with_%d_records' % (len(an.records) if an.records is not None
                                                       else -1), 0) + 1
@@ -295,6 +316,7 @@ def run_task(task):
     pilot = session.run_session(base, session.default_sched())
     info = s1.pilot_info(pilot)
     info['accepts'] = sum(1 for e in pilot.sim.log if e[3] == 'accepted')
+    info['server_pre_open'] = server_pre_open(pilot)
     session.cleanup(pilot)
     if task['type'] == 's3':
         n = task.get('n', 4)
